@@ -17,7 +17,8 @@ COQ_IMPORTS = ("From Coq Require Import QArith.\nFrom PV Require Import Expr.Val
 CASE_TYPE = "C13.case"
 CHECK_FN = "C13.check_case"
 SHARD = 150
-RULE = ("a case is a scratch namespace directory (files and directories with given names and texts) read with read_namespace; "
+RULE = ("a case is a scratch namespace directory (files and directories with given names and texts) read with read_namespace "
+        "(a quarter of the mutated texts and half of the name cases with read_files on the listed files); "
         "observable: 'models returned' or the coarse exception class, plus whether .path of an InvalidDefinitionError is set and "
         "lies inside the scratch namespace; structured cases (one expression statement with planted failure modes) are "
         "additionally compared with the outcome class the Coq model predicts; non-trivial = the text differs from the valid "
@@ -321,6 +322,8 @@ def generate(rng, tier):
         add(c, "targeted")
     for c in name_cases(rng, 150 if tier == "quick" else 3000):
         add(c, "targeted" if c["tag"] != "names:random" else "random")
+        if c["files"] and c["ns"] == "ns" and rng.random() < 0.5:
+            add(dict(c, api="files"), "targeted" if c["tag"] != "names:random" else "random")
     # not UTF-8 (F19, repaired: InvalidDefinitionError)
     add({"k": "ns", "ns": "ns", "files": {}, "dirs": [], "bytes": {"A.1.0.dsdl": [255, 254, 64, 115]}, "tag": "probe:invalid-utf8"}, "targeted")
     # structured
@@ -356,7 +359,10 @@ def generate(rng, tier):
             tag = "pure-noise"
         if text == NS[name]:
             continue
-        add(with_file(name, text, tag), "random")
+        c = with_file(name, text, tag)
+        if rng.random() < 0.25:
+            c["api"] = "files"
+        add(c, "random")
     return cases, streams
 
 
@@ -409,7 +415,11 @@ def run_impl(cases):
         real_root = os.path.realpath(root)
         signal.alarm(5)
         try:
-            pydsdl.read_namespace(ns, [], print_output_handler=lambda p, l, t: None)
+            if c.get("api") == "files" and (c.get("files") or c.get("bytes")):
+                paths = sorted(os.path.join(ns, name) for name in list(c.get("files", {})) + list(c.get("bytes", {})))
+                pydsdl.read_files(paths, [ns], print_output_handler=lambda p, l, t: None)
+            else:
+                pydsdl.read_namespace(ns, [], print_output_handler=lambda p, l, t: None)
             signal.alarm(0)
             out.append({"out": "model"})
         except _Alarm:
@@ -467,7 +477,7 @@ def nontrivial(case, obs):
 
 
 def describe(case, obs):
-    keys = ["stream:" + (case.get("tag") or "structured")]
+    keys = ["stream:" + (case.get("tag") or "structured"), "api:" + ("read_files" if case.get("api") == "files" else "read_namespace")]
     if obs.get("skip"):
         keys.append("impl:not-creatable")
     elif obs.get("timeout"):
